@@ -30,4 +30,4 @@ print(' '.join(sorted(set(re.findall(r'C\d\d', s))-{'$prop'})))" 2>/dev/null)
   echo "$d$res"
 }
 export -f one; export OUT
-ls -d $GLOB | xargs -P 3 -I{} bash -c 'one {}'
+eval ls -d $GLOB | xargs -P 3 -I{} bash -c 'one {}'
